@@ -1,8 +1,106 @@
 import XmppModel.Prelude.Hex
-/-! Driver module for C02: `handle args` answers one protocol line (fields after the
-property id); `none` means the line is not understood (`!bad-op`). -/
+import XmppModel.Model.StartTLS
+/-! Driver module for C02 (line protocol: see harness/c02/c02.go). -/
 namespace XmppModel.Driver.C02
+open XmppModel XmppModel.StartTLS
 
-def handle (_args : List String) : Option String := none
+def parseMask (s : String) : Option Mask := do
+  let n ← s.toNat?
+  if n < 256 then some (BitVec.ofNat 8 n) else none
+
+def parseItem (s : String) : Option Item :=
+  match splitList s '.' with
+  | [id, req, ok] => do pure ⟨← id.toNat?, ← parseBool req, ← parseBool ok⟩
+  | _ => none
+
+def parseUnit (s : String) : Option StartTLS.Unit :=
+  if s == "H1" then some (.hdr true)
+  else if s == "H0" then some (.hdr false)
+  else if s == "P" then some .proceed
+  else if s == "F" then some .failure
+  else if s == "E" then some .streamErr
+  else if s == "G" then some .tlsOther
+  else if s == "O" then some .foreign
+  else if s == "W" then some .space
+  else if s == "M" then some .malformed
+  else if s == "L" then some (.list [])
+  else if s.startsWith "L" then do
+    let items ← mapM? parseItem (splitList (s.drop 1).toString '+')
+    pure (.list items)
+  else none
+
+def parseOther (s : String) : Option Feature :=
+  match splitList s '.' with
+  | [id, nec, proh, neg] => do pure ⟨← id.toNat?, ← parseMask nec, ← parseMask proh, ← parseBool neg⟩
+  | _ => none
+
+def parseOracle (s : String) : Option (Nat × NegRes) :=
+  match splitList s '.' with
+  | [id, m, rs, er] => do pure (← id.toNat?, ⟨← parseMask m, ← parseBool rs, ← parseBool er⟩)
+  | _ => none
+
+def parsePItem (s : String) : Option PItem :=
+  if s == "J" then some .junk else (parseUnit s).map .unit
+
+def showEv : Ev → Option String
+  | .wHdr t => some (if t then "H" else "h")
+  | .wStartTLS t => some (if t then "S" else "s")
+  | .wOther id t => some ((if t then "O" else "o") ++ toString id)
+  | .hello (.dom i) => some s!"Nd{i}"
+  | .hello .explicit => some "Nex"
+  | _ => none
+
+def showErr : ErrClass → String
+  | .read => "read" | .tls => "tls" | .streamerr => "streamerr"
+  | .refused => "refused" | .proto => "proto" | .feat => "feat"
+
+def showOutcome : Outcome → String
+  | .done st t h => s!"done.{st.toNat}.{showBool t}.{showBool h}"
+  | .stop (.err e) => "err." ++ showErr e
+  | .stop .fuel => "model:fuel"
+  | .stop .oracle => "model:oracle-exhausted"
+  | .stop .badPick => "model:pick-not-allowed"
+  | .stop .unmodelled => "model:unmodelled-bits"
+
+def unitCount (i : Input) : Nat :=
+  (i.clear.map List.length).sum + i.prot.length
+
+def showName : Option Name → String
+  | none => "none"
+  | some .explicit => "ex"
+  | some (.dom i) => s!"d{i}"
+
+def parseSess (s : String) : Option (Nat × Kind) :=
+  match splitList s '.' with
+  | [d, k] => do
+    let d ← d.toNat?
+    let k ← if k == "p" then some Kind.p else if k == "x" then some .x else if k == "f" then some .f
+            else if k == "n" then some .n else none
+    pure (d, k)
+  | _ => none
+
+def handle (args : List String) : Option String :=
+  match args with
+  | ["run", tee, explicit, domain, st0, rr, rt, others, clear, prot, oracle] => do
+    let tee ← tee.toNat?
+    let explicit ← parseBool explicit
+    let domain ← domain.toNat?
+    let st0 ← parseMask st0
+    let rr ← parseBool rr
+    let rt ← parseBool rt
+    let others ← mapM? parseOther (splitList others)
+    let clear ← mapM? (fun seg => mapM? parseUnit (splitList seg)) (splitList clear '/')
+    let prot ← mapM? parsePItem (splitList prot)
+    let oracle ← mapM? parseOracle (splitList oracle)
+    let cfg : Cfg := { tee := tee != 0, rr := rr, rt := rt, others := others }
+    let inp : Input := { clear := clear, prot := prot, oracle := oracle }
+    let env : Env := { domain := domain, captured := if explicit then some .explicit else none }
+    let r := run cfg env st0 inp (4 * unitCount inp + 8)
+    pure (joinList (r.1.filterMap showEv) ++ " " ++ showOutcome r.2)
+  | ["sni", explicit, ss] => do
+    let e ← parseBool explicit
+    let ss ← mapM? parseSess (splitList ss)
+    pure (joinList ((sessions (if e then some .explicit else none) ss).map showName))
+  | _ => none
 
 end XmppModel.Driver.C02
